@@ -7,7 +7,8 @@
 
     * C11's bridge (`walk_frames_follow_c11`, `walk_frames_follow_c11W`,
       `walk_func_frames_follow_c11[W]`, `instr_ok_follows_c11`)  → §1, §4
-    * C06's bridge (`walk_frames_follow_c06`)                       → §2
+    * C06's bridge (`walk_frames_follow_c06`; with STACK WIN records `walk_frames_follow_c06W`
+      off x86, `walk_cfi_frames_x86W` on x86 — MdProofs/C06EnvW.lean)   → §2
     * C05 `walk_wf` / C03 `c03_walk_bound` (= `stacks_wf`, `stacks_frame_bound`) → §3
 
   Adapter lemmas: `MdProofs/Lemmas/IndexCompose.lean` (among them the one walker fact no theorem
@@ -20,14 +21,17 @@
       them (what C11's table construction needs; true of every parsed file) — vacuous in the
       `mkEnv` branch; `state_function_is_c11` also needs the frame's lookup address ≤ u64::MAX
       (C11's `fill_symbol` panics above it in the model).
-    * §2: `Walk.noWins (winsOf d) = true` (no loaded module's symbol file has STACK WIN records: the
-      `mkEnv` branch — `walk_frames_follow_c06` is a theorem about `mkEnv` only), and the registers
+    * §2: `state_cfi_frames_follow_c06`: `Walk.noWins (winsOf d) = true` (the `mkEnv` branch);
+      `state_cfi_frames_follow_c06W`: `noWins = false` and CPU ≠ x86 (the `mkEnvW` branch);
+      `state_cfi_frames_follow_c06_nonx86`: CPU ≠ x86 only; `state_cfi_frames_x86W`: x86 with STACK
+      WIN records, a weaker conclusion (`CfiFrameX86`), no register hypothesis. For `FollowsC06` the registers
       of the dump's context records are below 2^64 (`DumpRegsOk`, from which C06's `CtxOk` of every
       start context is PROVED: `startCtx_regsOk`, `toCtx_ok`). Both byte orders: the stack memory of
       the statement is `walkMem d …`, which carries `be := d.bigEndian`.
 -/
 import MdProofs.Lemmas.IndexCompose
 import MdProofs.C03
+import MdProofs.C06EnvW
 namespace MdModel.Index
 open MdModel
 open MdModel.Walk (Mem)
@@ -218,20 +222,84 @@ theorem state_cfi_frames_follow_c06 (d : Dump) (ts : List Thread) (s : State)
   rw [e0, e1] at this
   exact this
 
-/-
-  OPEN (statement kept, not proved): the same for dumps WITH STACK WIN records somewhere,
+/-- **state_cfi_frames_follow_c06W** — the `mkEnvW` branch of `env_spec`, off x86: for every dump
+    that yields a state, whose loaded modules' symbol files DO carry STACK WIN records somewhere
+    (`noWins = false`) and whose CPU is not x86 (amd64, arm, arm64, arm64old, mips32, mips64): every
+    frame of trust `cfi` of every call stack satisfies `FollowsC06` w.r.t. the frame below it — the
+    very conclusion of `state_cfi_frames_follow_c06`. The walk runs in `Walk.mkEnvW`, whose
+    symbolication differs from `mkEnv`'s (parameter sizes from STACK WIN) but whose
+    `get_caller_by_cfi` off x86 is STACK CFI evaluation (`CfiBridge.walk_frames_follow_c06W`, by
+    `walk_frames_follow_c06_env` over the abstract `CfiEnv`). -/
+theorem state_cfi_frames_follow_c06W (d : Dump) (ts : List Thread) (s : State)
+    (hth : d.threads = some ts) (h : index d = .state s)
+    (hn : Walk.noWins (winsOf d) = false) (hx86 : (unwinderOf d.arch).getD .x86 ≠ .x86)
+    (hregs : DumpRegsOk d)
+    (i : Nat) (h1 : i < ts.length) (h2 : i < s.stacks.length)
+    (r : Regs) (hr : startCtx d ts[i] = some r)
+    (j : Nat) (hj : j + 1 < s.stacks[i].frames.length)
+    (hcfi : s.stacks[i].frames[j + 1].f.trust = .cfi) :
+    FollowsC06 ((unwinderOf d.arch).getD .x86) (walkOs (Os.ofPlatformId d.platformId)) (worldOf d)
+      ((walkMem d (selectMem (memoryList d) ts[i] (some r.sp))).getD { base := 0, bytes := #[] })
+      s.stacks[i].frames[j].f s.stacks[i].frames[j + 1].f := by
+  have hw := stacks_are_walks d ts s hth h i h1 h2
+  rw [hr] at hw
+  simp only at hw
+  rw [(env_spec d _).2.2.2.1 hn] at hw
+  have hok : CtxOk ((unwinderOf d.arch).getD .x86) (toCtx d.arch r) :=
+    toCtx_ok _ _ _ (startCtx_regsOk d ts hth hregs ts[i] (List.getElem_mem h1) r hr)
+  obtain ⟨hj0, e0⟩ := getElem_of_map_eq hw j (by omega)
+  obtain ⟨hj1, e1⟩ := getElem_of_map_eq hw (j + 1) hj
+  have := CfiBridge.walk_frames_follow_c06W hx86 _ _ _ _ _ _ hok j hj1 (by rw [e1]; exact hcfi)
+  rw [e0, e1] at this
+  exact this
 
-    theorem state_cfi_frames_follow_c06W … (hn : Walk.noWins (winsOf d) = false)
-        (hx86 : (unwinderOf d.arch).getD .x86 ≠ .x86) … : FollowsC06 … frames[j].f frames[j+1].f
+/-- **state_cfi_frames_follow_c06_nonx86** — both branches of `env_spec` at once: on every CPU but
+    x86, with or without STACK WIN records in the symbol files, every frame of trust `cfi` of every
+    call stack of the state satisfies `FollowsC06`. The only hypotheses left are "the dump yields a
+    state", "its CPU is not x86" and `DumpRegsOk`. -/
+theorem state_cfi_frames_follow_c06_nonx86 (d : Dump) (ts : List Thread) (s : State)
+    (hth : d.threads = some ts) (h : index d = .state s)
+    (hx86 : (unwinderOf d.arch).getD .x86 ≠ .x86) (hregs : DumpRegsOk d)
+    (i : Nat) (h1 : i < ts.length) (h2 : i < s.stacks.length)
+    (r : Regs) (hr : startCtx d ts[i] = some r)
+    (j : Nat) (hj : j + 1 < s.stacks[i].frames.length)
+    (hcfi : s.stacks[i].frames[j + 1].f.trust = .cfi) :
+    FollowsC06 ((unwinderOf d.arch).getD .x86) (walkOs (Os.ofPlatformId d.platformId)) (worldOf d)
+      ((walkMem d (selectMem (memoryList d) ts[i] (some r.sp))).getD { base := 0, bytes := #[] })
+      s.stacks[i].frames[j].f s.stacks[i].frames[j + 1].f := by
+  cases hn : Walk.noWins (winsOf d) with
+  | true => exact state_cfi_frames_follow_c06 d ts s hth h hn hregs i h1 h2 r hr j hj hcfi
+  | false => exact state_cfi_frames_follow_c06W d ts s hth h hn hx86 hregs i h1 h2 r hr j hj hcfi
 
-  Obstacle: `walk_frames_follow_c06` / `follows_of_step` / `mkEnv_cfiOk` are stated about
-  `Walk.mkEnv`. Off x86 `mkEnvW`'s `cfi` IS `cfiOf` (`mkEnvW_cfi_arch`) and `instrOk`, `mask`,
-  `arch`, `os` are `mkEnv`'s (`rfl`), but `symb` differs (`fillSymbolW`: parameter size from STACK
-  WIN), so the two walks differ in `Frame.func` and the C06 theorem cannot be transported by an
-  equation of environments; it needs `follows_of_step` re-proved for an environment given by its
-  `cfi` field (a C06Env.lean change — another builder's file). On x86 with STACK WIN records a
-  `cfi`-trust frame may come from STACK WIN evaluation (`cfiWalkW`), which is C07's, not C06's.
--/
+/-- **state_cfi_frames_x86W** — the remaining branch: an x86 dump whose symbol files carry STACK WIN
+    records. There a frame of trust `cfi` is NOT in general a STACK CFI frame: `get_caller_by_cfi`
+    is `SymbolFile::walk_frame`, which evaluates the STACK WIN record of the lookup address first
+    (C07). What holds, for every such frame of every call stack (`CfiBridge.CfiFrameX86`): the
+    callee's `esp` is valid, a loaded module with a symbol file covers its lookup address, and the
+    frame's context is EITHER the successful result of C07's `Win.winResult` on the callee's walker
+    (the function `MdProofs.C07` / `MdProofs.C04Win` are about) OR — no STACK WIN record evaluated —
+    STACK CFI evaluation (`Walk.walkFrameCfi`, C06's evaluator by `walkFrame_eq_c06`) on that walker;
+    plus the epilogue (`ip ≥ 4096`, lookup address `ip − 1`, stack pointer strictly increasing).
+    No hypothesis on the registers is needed. -/
+theorem state_cfi_frames_x86W (d : Dump) (ts : List Thread) (s : State)
+    (hth : d.threads = some ts) (h : index d = .state s)
+    (hn : Walk.noWins (winsOf d) = false) (hx86 : (unwinderOf d.arch).getD .x86 = .x86)
+    (i : Nat) (h1 : i < ts.length) (h2 : i < s.stacks.length)
+    (r : Regs) (hr : startCtx d ts[i] = some r)
+    (j : Nat) (hj : j + 1 < s.stacks[i].frames.length)
+    (hcfi : s.stacks[i].frames[j + 1].f.trust = .cfi) :
+    CfiBridge.CfiFrameX86 (worldOf d) (winsOf d)
+      ((walkMem d (selectMem (memoryList d) ts[i] (some r.sp))).getD { base := 0, bytes := #[] })
+      s.stacks[i].frames[j].f s.stacks[i].frames[j + 1].f := by
+  have hw := stacks_are_walks d ts s hth h i h1 h2
+  rw [hr] at hw
+  simp only at hw
+  rw [(env_spec d _).2.2.2.1 hn, hx86] at hw
+  obtain ⟨hj0, e0⟩ := getElem_of_map_eq hw j (by omega)
+  obtain ⟨hj1, e1⟩ := getElem_of_map_eq hw (j + 1) hj
+  have := CfiBridge.walk_cfi_frames_x86W _ _ _ _ _ _ j hj1 (by rw [e1]; exact hcfi)
+  rw [e0, e1] at this
+  exact this
 
 /-! ## 3. C05's invariant and C03's frame bound, side by side -/
 
@@ -421,5 +489,213 @@ example : ∃ s, index cfiDump = .state s ∧ ∃ (h2 : 0 < s.stacks.length),
 example : CtxOk .amd64 (toCtx cfiDump.arch ⟨0x400100, 0x10008, 0x10010, [("rbx", 7), ("r12", 9)]⟩) :=
   toCtx_ok _ _ _ (startCtx_regsOk cfiDump [cfiThread] cfi_hyps.1 cfi_hyps.2.2.1 cfiThread
     List.mem_cons_self _ cfi_hyps.2.2.2.1)
+
+/-! ### an actual `cfi` frame on `cfiDump`
+
+  The model of `index` is not kernel-reducible as a whole (range tables are built by a sort), so the
+  second frame is obtained the way C06Env.lean's example obtains it: tables by C08's lemmas
+  (`cfi_modTable`, `cfi_cfiTable`), C06's `walkFrame` on the record by kernel evaluation,
+  `mkEnv_cfi_spec` + `cfi_frame_epilogue` + `walk_second` for the walker side, `stacks_are_walks`
+  for the state. -/
+section CfiFrame
+open MdModel.CfiBridge
+
+def cfiRegs : Regs := ⟨0x400100, 0x10008, 0x10010, [("rbx", 7), ("r12", 9)]⟩
+def cfiMem0 : Mem := (walkMem cfiDump (some regionA)).getD { base := 0, bytes := #[] }
+def cfiRec : Walk.CfiRec := ⟨0x100, 0x300, ".cfa: $rsp 16 + .ra: .cfa -8 + ^", []⟩
+
+theorem cfi_cfiTable : Walk.cfiTable cfiSf = [(⟨0x100, 0x3ff⟩, 0)] := by
+  have hsep : RangeMap.Sep [(⟨0x100, 0x3ff⟩, 0)] := by
+    simp [RangeMap.Sep, RangeMap.WF, U64MAX]
+  have hl : (cfiSf.cfis.zipIdx.filterMap fun (c, i) => (RangeMap.mkRange c.addr c.size).map fun r => (r, i)) =
+      [(⟨0x100, 0x3ff⟩, 0)] := by decide
+  unfold Walk.cfiTable
+  rw [hl]
+  simp [RangeMap.safeVecP, RangeMap.sortEntries_of_sep _ hsep, RangeMap.pass_of_sep _ hsep]
+
+theorem cfiCtx_ok : CtxOk .amd64 (toCtx 9 cfiRegs) :=
+  toCtx_ok _ _ _ (startCtx_regsOk cfiDump [cfiThread] cfi_hyps.1 cfi_hyps.2.2.1 cfiThread
+    List.mem_cons_self _ cfi_hyps.2.2.2.1)
+
+def cfiW : Cfi.Walker := walkerOf ⟨.amd64, toCtx 9 cfiRegs, cfiMem0⟩ 0x400100
+  (fwdOf .amd64 ⟨toCtx 9 cfiRegs, Walk.forwarded .amd64 (toCtx 9 cfiRegs)⟩)
+
+/-- `get_caller_by_cfi` on a frame with thread 0's start context at 0x400100 -/
+theorem cfi_caller (callee : Walk.Frame) (grand : Option Walk.Frame) (hc : callee.ctx = toCtx 9 cfiRegs)
+    (hi : callee.instruction = 0x400100) :
+    ∃ r, (Walk.mkEnv .amd64 .other (worldOf cfiDump) cfiMem0).cfi callee grand = some r ∧
+      r.sp = 0x10018 ∧ r.ip = 0x10030 := by
+  obtain ⟨ctx, trust, instr, md, fn⟩ := callee
+  simp only at hc hi
+  subst hc hi
+  obtain ⟨_, _, hsome⟩ := mkEnv_cfi_spec .amd64 .other (worldOf cfiDump) cfiMem0
+    ⟨toCtx 9 cfiRegs, trust, 0x400100, md, fn⟩ grand cfiCtx_ok
+  have hk : Walk.moduleAt (Walk.modTable (worldOf cfiDump).mods) 0x400100 = some 0 := by rw [cfi_modTable]; decide
+  obtain ⟨m, hm, _, _, _, hsf⟩ := hsome 0 hk
+  have hm' : m = ⟨0x400000, 0x1000, "mod"⟩ := by
+    have : (worldOf cfiDump).mods[0]? = some ⟨0x400000, 0x1000, "mod"⟩ := by rw [cfi_world]; rfl
+    rw [this] at hm; exact (Option.some.inj hm).symm
+  obtain ⟨_, hget⟩ := hsf cfiSf (by rw [cfi_world]; rfl)
+  have hj : RangeMap.get (Walk.cfiTable cfiSf) (0x400100 - m.base) = some 0 := by
+    rw [hm', cfi_cfiTable]; decide
+  obtain ⟨rec, hrec, _, hmain⟩ := hget 0 hj
+  have hrec' : rec = cfiRec := by
+    have : cfiSf.cfis[0]? = some cfiRec := rfl
+    rw [this] at hrec; exact (Option.some.inj hrec).symm
+  have hsp0 : spValid (Walk.effArch .amd64 (toCtx 9 cfiRegs)) (toCtx 9 cfiRegs) = true := rfl
+  have hmain := hmain hsp0
+  have hW : c06Walker .amd64 cfiMem0 ⟨toCtx 9 cfiRegs, trust, 0x400100, md, fn⟩ = cfiW := rfl
+  have ha : Walk.effArch .amd64 (toCtx 9 cfiRegs) = .amd64 := rfl
+  simp only [ha, hW] at hmain
+  have hvals : (Cfi.walkFrame (recOf cfiRec) 0x400000 cfiW).map (fun c => (c.cfa, c.ra)) =
+      some (some 0x10018, some 0x10030) := by decide
+  have hbase : m.base = 0x400000 := by rw [hm']
+  cases hc : Cfi.walkFrame (recOf rec) m.base cfiW with
+  | none => rw [hrec', hbase] at hc; rw [hc] at hvals; cases hvals
+  | some c =>
+    rw [hc] at hmain
+    simp only at hmain
+    obtain ⟨cfa, ra, c', r, vs, h1, h2, h3, h4, _, _, _, h8⟩ := hmain
+    rw [hrec', hbase] at hc h3
+    rw [hc] at hvals
+    simp only [Option.map_some, Option.some.injEq, Prod.mk.injEq] at hvals
+    rw [hvals.1] at h1; rw [hvals.2] at h2
+    cases h1; cases h2
+    have hregs : (Cfi.walkFrame (recOf cfiRec) 0x400000 (seeded .amd64 cfiW 0x10018 0x10030)).map
+        (fun c => (c.get (utf8 "rsp"), c.get (utf8 "rip"))) = some (some 0x10018, some 0x10030) := by decide
+    rw [h3] at hregs
+    simp only [Option.map_some, Option.some.injEq, Prod.mk.injEq] at hregs
+    obtain ⟨r1, r2⟩ := hregs
+    have hp : ∀ s v, paMask .amd64 (Walk.mkEnv .amd64 .other (worldOf cfiDump) cfiMem0).mask s v = v := by
+      intro s v; simp [paMask, isArm64]
+    obtain ⟨hsp, hip⟩ := h8 (by decide)
+    refine ⟨r, h4, ?_, ?_⟩
+    · rw [hsp]; show (Option.map UInt64.toNat (c'.get (utf8 "rsp"))).getD _ = _; rw [r1]; rfl
+    · rw [hip, hp]; show (Option.map UInt64.toNat (c'.get (utf8 "rip"))).getD _ = _; rw [r2]; rfl
+
+/-- **non-vacuity of §2 with an actual `cfi` frame**: call stack 0 of `cfiDump`'s state has a second
+    frame, its trust is `cfi` (found through the STACK CFI record of `mod`: CFA = rsp + 16 = 0x10018,
+    return address = the word at 0x10010 = 0x10030), and `state_cfi_frames_follow_c06` applies to it -/
+example : ∃ s, index cfiDump = .state s ∧ ∃ (h2 : 0 < s.stacks.length) (hj : 0 + 1 < s.stacks[0].frames.length),
+    s.stacks[0].frames[0 + 1].f.trust = .cfi ∧ s.stacks[0].frames[0 + 1].f.ctx.sp = 0x10018 ∧
+    s.stacks[0].frames[0 + 1].f.ctx.ip = 0x10030 ∧
+    FollowsC06 .amd64 .other (worldOf cfiDump) cfiMem0 s.stacks[0].frames[0].f s.stacks[0].frames[0 + 1].f := by
+  obtain ⟨hth, hn, hregs, hstart, hsel, -, -⟩ := cfi_hyps
+  obtain ⟨s, hs⟩ := index_total cfiDump [cfiThread] hth
+  have hl := (stack_at cfiDump [cfiThread] s hth hs).1
+  have h2 : 0 < s.stacks.length := by rw [hl]; decide
+  have h1 : 0 < [cfiThread].length := by decide
+  refine ⟨s, hs, h2, ?_⟩
+  have hw := stacks_are_walks cfiDump [cfiThread] s hth hs 0 h1 h2
+  have hstart' : startCtx cfiDump [cfiThread][0] = some cfiRegs := hstart
+  rw [hstart'] at hw
+  simp only at hw
+  have hsel' : selectMem (memoryList cfiDump) [cfiThread][0] (some cfiRegs.sp) = some regionA := hsel
+  rw [(env_spec cfiDump _).2.2.1 hn, hsel'] at hw
+  have ea : (unwinderOf cfiDump.arch).getD .x86 = .amd64 := by decide
+  have eo : walkOs (Os.ofPlatformId cfiDump.platformId) = .other := by decide
+  have em : walkMem cfiDump (some regionA) = some cfiMem0 := by rfl
+  have ec : toCtx cfiDump.arch cfiRegs = toCtx 9 cfiRegs := rfl
+  rw [ea, eo, ec, em] at hw
+  have hm0 : (some cfiMem0).getD { base := 0, bytes := #[] } = cfiMem0 := rfl
+  rw [hm0] at hw
+  -- the second frame of that walk, by `get_caller_by_cfi` + the epilogue
+  obtain ⟨r, hcfi, hsp, hip⟩ := cfi_caller
+    (Walk.symbolise (Walk.mkEnv .amd64 .other (worldOf cfiDump) cfiMem0) (Walk.Frame.ofCtx (toCtx 9 cfiRegs) .context))
+    none rfl rfl
+  have hstep := (cfi_frame_epilogue (Walk.mkEnv .amd64 .other (worldOf cfiDump) cfiMem0) cfiMem0
+    (Walk.symbolise (Walk.mkEnv .amd64 .other (worldOf cfiDump) cfiMem0) (Walk.Frame.ofCtx (toCtx 9 cfiRegs) .context))
+    { ctx := r, trust := .cfi, instruction := r.ip - 1 } none).mpr
+      ⟨r, hcfi, by rw [hip]; decide, .inl (by rw [hsp]; decide), rfl⟩
+  obtain ⟨rest, hwalk⟩ := walk_second _ cfiMem0 (toCtx 9 cfiRegs) _ (by decide) (by decide) hstep.1
+  rw [hwalk] at hw
+  have hlen : 0 + 1 < s.stacks[0].frames.length := by
+    have := congrArg List.length hw
+    simp at this
+    omega
+  obtain ⟨_, e1⟩ := getElem_of_map_eq hw (0 + 1) hlen
+  have e1' : s.stacks[0].frames[0 + 1].f =
+      Walk.symbolise (Walk.mkEnv .amd64 .other (worldOf cfiDump) cfiMem0) { ctx := r, trust := .cfi, instruction := r.ip - 1 } := e1.symm
+  have ht : s.stacks[0].frames[0 + 1].f.trust = .cfi := by rw [e1']; rfl
+  refine ⟨hlen, ht, by rw [e1']; exact hsp, by rw [e1']; exact hip, ?_⟩
+  have := state_cfi_frames_follow_c06 cfiDump [cfiThread] s hth hs hn hregs 0 h1 h2 cfiRegs hstart' 0 hlen ht
+  rw [ea, eo, hsel', em] at this
+  exact this
+end CfiFrame
+
+/-! ### the same with a STACK WIN record present: the `mkEnvW` branch is inhabited -/
+section CfiFrameW
+open MdModel.CfiBridge
+
+/-- `cfiDump` with a STACK WIN record in `mod`'s symbol file: `noWins` fails, the walks run in `mkEnvW` -/
+def cfiDumpW : Dump :=
+  { cfiDump with syms := [("mod", cfiSf, [⟨'4', 0x500, 0x10, 8, 0, 0, '1', "$T0 .raSearch =".toList⟩])] }
+
+theorem cfiW_hyps :
+    cfiDumpW.threads = some [cfiThread] ∧ Walk.noWins (winsOf cfiDumpW) = false ∧ DumpRegsOk cfiDumpW ∧
+    startCtx cfiDumpW cfiThread = some cfiRegs ∧
+    selectMem (memoryList cfiDumpW) cfiThread (some 0x10008) = some regionA ∧
+    worldOf cfiDumpW = worldOf cfiDump := by
+  refine ⟨rfl, by decide, ⟨?_, ?_⟩, by decide, by rfl, rfl⟩
+  · intro e c he; cases he
+  · intro ts hts t ht c hc
+    cases hts
+    simp only [List.mem_singleton] at ht
+    subst ht
+    cases hc
+    exact ⟨by decide, by decide, by decide, by decide⟩
+
+/-- **non-vacuity of `state_cfi_frames_follow_c06W`**: on `cfiDumpW` (amd64, a STACK WIN record
+    present) call stack 0 has a frame 1 of trust `cfi` and the theorem applies to it -/
+example : ∃ s, index cfiDumpW = .state s ∧ ∃ (h2 : 0 < s.stacks.length) (hj : 0 + 1 < s.stacks[0].frames.length),
+    s.stacks[0].frames[0 + 1].f.trust = .cfi ∧ s.stacks[0].frames[0 + 1].f.ctx.sp = 0x10018 ∧
+    s.stacks[0].frames[0 + 1].f.ctx.ip = 0x10030 ∧
+    FollowsC06 .amd64 .other (worldOf cfiDump) cfiMem0 s.stacks[0].frames[0].f s.stacks[0].frames[0 + 1].f := by
+  obtain ⟨hth, hn, hregs, hstart, hsel, hworld⟩ := cfiW_hyps
+  obtain ⟨s, hs⟩ := index_total cfiDumpW [cfiThread] hth
+  have hl := (stack_at cfiDumpW [cfiThread] s hth hs).1
+  have h2 : 0 < s.stacks.length := by rw [hl]; decide
+  have h1 : 0 < [cfiThread].length := by decide
+  refine ⟨s, hs, h2, ?_⟩
+  have hw := stacks_are_walks cfiDumpW [cfiThread] s hth hs 0 h1 h2
+  have hstart' : startCtx cfiDumpW [cfiThread][0] = some cfiRegs := hstart
+  rw [hstart'] at hw
+  simp only at hw
+  have hsel' : selectMem (memoryList cfiDumpW) [cfiThread][0] (some cfiRegs.sp) = some regionA := hsel
+  rw [(env_spec cfiDumpW _).2.2.2.1 hn, hsel'] at hw
+  have ea : (unwinderOf cfiDumpW.arch).getD .x86 = .amd64 := by decide
+  have eo : walkOs (Os.ofPlatformId cfiDumpW.platformId) = .other := by decide
+  have em : walkMem cfiDumpW (some regionA) = some cfiMem0 := by rfl
+  have ec : toCtx cfiDumpW.arch cfiRegs = toCtx 9 cfiRegs := rfl
+  rw [ea, eo, ec, em, hworld] at hw
+  have hm0 : (some cfiMem0).getD { base := 0, bytes := #[] } = cfiMem0 := rfl
+  rw [hm0] at hw
+  have hne : Walk.Arch.amd64 ≠ .x86 := by decide
+  obtain ⟨r, hcfi, hsp, hip⟩ := cfi_caller
+    (Walk.symbolise (Walk.mkEnvW .amd64 .other (worldOf cfiDump) (winsOf cfiDumpW) cfiMem0)
+      (Walk.Frame.ofCtx (toCtx 9 cfiRegs) .context)) none rfl rfl
+  rw [← mkEnvW_cfi_specW hne .other (worldOf cfiDump) (winsOf cfiDumpW) cfiMem0] at hcfi
+  have hstep := (cfi_frame_epilogue (Walk.mkEnvW .amd64 .other (worldOf cfiDump) (winsOf cfiDumpW) cfiMem0) cfiMem0
+    (Walk.symbolise (Walk.mkEnvW .amd64 .other (worldOf cfiDump) (winsOf cfiDumpW) cfiMem0)
+      (Walk.Frame.ofCtx (toCtx 9 cfiRegs) .context))
+    { ctx := r, trust := .cfi, instruction := r.ip - 1 } none).mpr
+      ⟨r, hcfi, by rw [hip]; decide, .inl (by rw [hsp]; decide), rfl⟩
+  obtain ⟨rest, hwalk⟩ := walk_second _ cfiMem0 (toCtx 9 cfiRegs) _ (by decide) (by decide) hstep.1
+  rw [hwalk] at hw
+  have hlen : 0 + 1 < s.stacks[0].frames.length := by
+    have := congrArg List.length hw
+    simp at this
+    omega
+  obtain ⟨_, e1⟩ := getElem_of_map_eq hw (0 + 1) hlen
+  have e1' : s.stacks[0].frames[0 + 1].f =
+      Walk.symbolise (Walk.mkEnvW .amd64 .other (worldOf cfiDump) (winsOf cfiDumpW) cfiMem0)
+        { ctx := r, trust := .cfi, instruction := r.ip - 1 } := e1.symm
+  have ht : s.stacks[0].frames[0 + 1].f.trust = .cfi := by rw [e1']; rfl
+  refine ⟨hlen, ht, by rw [e1']; exact hsp, by rw [e1']; exact hip, ?_⟩
+  have := state_cfi_frames_follow_c06W cfiDumpW [cfiThread] s hth hs hn (by rw [ea]; exact hne) hregs 0 h1 h2
+    cfiRegs hstart' 0 hlen ht
+  rw [ea, eo, hsel', em, hworld] at this
+  exact this
+end CfiFrameW
 
 end MdModel.Index
